@@ -139,7 +139,45 @@ pub mod q_%(low)s {
 }
 '''
 
-TEMPLATES = {"generic_contract": ("g_", GENERIC), "interface_assoc": ("a_", ASSOC), "generic_qualified": ("q_", QUALIFIED)}
+CUSTOMQ = '''
+#[allow(dead_code, unused_variables, unused_imports, non_camel_case_types, clippy::all)]
+pub mod c_%(low)s {
+    use sylvia::ctx::{ExecCtx, InstantiateCtx, QueryCtx, SudoCtx};
+    use sylvia::cw_std::{Empty, Response, StdError};
+    use verif_rrt::{ContractError, QResp};
+    use std::marker::PhantomData;
+    thread_local! { pub static RAN: std::cell::RefCell<Vec<&'static str>> = const { std::cell::RefCell::new(Vec::new()) }; }
+    pub struct GCtr<%(N)s>(PhantomData<%(N)s>);
+    #[sylvia::entry_points(generics<Empty>)]
+    #[sylvia::contract]
+    #[sv::error(ContractError)]
+    #[sv::custom(query=%(N)s)]
+    impl<%(N)s> GCtr<%(N)s> where %(N)s: sylvia::types::CustomQuery + 'static {
+        pub const fn new() -> Self { GCtr(PhantomData) }
+        #[sv::msg(instantiate)]
+        fn instantiate(&self, ctx: InstantiateCtx<%(N)s>) -> Result<Response, ContractError> { Ok(Response::new()) }
+        #[sv::msg(exec)]
+        fn %(low)s(&self, ctx: ExecCtx<%(N)s>, v: u32) -> Result<Response, ContractError> { RAN.with(|r| r.borrow_mut().push("put")); Ok(Response::new()) }
+        #[sv::msg(query)]
+        fn get(&self, ctx: QueryCtx<%(N)s>, v: u32) -> Result<QResp, ContractError> { RAN.with(|r| r.borrow_mut().push("get")); Ok(QResp { h: "get".into(), code: 1 }) }
+        #[sv::msg(sudo)]
+        fn poke(&self, ctx: SudoCtx<%(N)s>, v: Option<u32>) -> Result<Response, ContractError> { Ok(Response::new()) }
+    }
+    pub fn smoke() -> (bool, String, String) {
+        use sylvia::cw_std::testing::{message_info, mock_dependencies, mock_env};
+        let mut deps = mock_dependencies();
+        let e: Result<sv::ContractExecMsg<Empty>, _> = sylvia::cw_std::from_json(b"{\\"%(low)s\\":{\\"v\\":1}}");
+        let q: Result<sv::ContractQueryMsg<Empty>, _> = sylvia::cw_std::from_json(b"{\\"get\\":{\\"v\\":1}}");
+        let info = message_info(&sylvia::cw_std::Addr::unchecked("s"), &[]);
+        let a = e.map(|m| entry_points::execute(deps.as_mut(), mock_env(), info, m).is_ok()).unwrap_or(false);
+        let b = q.map(|m| entry_points::query(deps.as_ref(), mock_env(), m).is_ok()).unwrap_or(false);
+        let ran = RAN.with(|r| r.borrow().clone());
+        (a && b, ran.first().copied().unwrap_or("").to_string(), ran.get(1).copied().unwrap_or("").to_string())
+    }
+}
+'''
+
+TEMPLATES = {"generic_contract": ("g_", GENERIC), "interface_assoc": ("a_", ASSOC), "generic_qualified": ("q_", QUALIFIED), "generic_custom_query": ("c_", CUSTOMQ)}
 
 
 def modname(cfg):
